@@ -139,9 +139,11 @@ def replay_unordered_limit(task, res):
     for tid, rows in sorted(res['db'].items()):
         ins += tv.table_sql(task['names'], tid, rows, res.get('strmap') or {})
     engine = 'disk' if task['cfg'].startswith('disk') else 'mem'
-    stmts = list(task['ddl']) + ['create table zz_verif_dummy(z int)'] + ins + tv.stats_stmts(task['cfgobj']) + ['pragma disable_optimizer', full, 'pragma enable_optimizer', sql]
+    stmts = list(task['ddl']) + ['create table zz_verif_dummy(z int)'] + ins + tv.stats_stmts(task['cfgobj']) + ['pragma disable_optimizer', full, 'pragma enable_optimizer', sql, full]
     (out, rc, err), = tv.run_sql(engine, stmts)
     qs = [o for o in out if o.get('sql') in (full, sql)]
+    full_on = qs[2] if len(qs) == 3 else None
+    qs = qs[:2]
     how = {'engine': engine, 'stmts': stmts}
     if len(qs) != 2 or not all(o.get('ok') and not o.get('panicked') for o in qs):
         how['note'] = 'replay did not complete'
@@ -157,7 +159,14 @@ def replay_unordered_limit(task, res):
             pool.remove(j)
         else:
             inside = False
-    return {'reproduced': (len(lim) != want) or not inside, 'how': how}
+    rep = (len(lim) != want) or not inside
+    if not rep and full_on is not None and full_on.get('ok') and not full_on.get('panicked'):
+        # which rows an unordered LIMIT keeps is unspecified: the window may hide a wrong full result on this run
+        if sorted(map(json.dumps, full_on['rows'])) != sorted(map(json.dumps, fullrows)):
+            how['full_result_optimizer_on'] = full_on['rows']
+            how['note'] = 'the LIMIT window hides it on this run; the full result differs with the optimizer on'
+            rep = True
+    return {'reproduced': rep, 'how': how}
 
 
 def build_tasks(report, ddl, items, K, thorough, origin, use_ranges=False, only_cfg=None):
